@@ -546,6 +546,7 @@ func vfExecProd(c *vfProdCase) *vfProdRun {
 				sent := int32(0)
 				msg := run.msgs[i]
 				okc := make(chan struct{})
+				run.sim.ev(vfEvent{Kind: "submit-begin", N: i}, false) // recorded before the message can be in the pipeline
 				go func() {
 					select {
 					case p.Input() <- msg:
@@ -656,9 +657,22 @@ func vfExecProd(c *vfProdCase) *vfProdRun {
 				sentOrDone[e.N] = true
 			}
 		}
+		var unsent []int
+		kv := 0
 		for _, i := range run.submitted {
 			if !sentOrDone[i] {
 				run.abandoned = true
+				unsent = append(unsent, i)
+				kv += vfMsgKVBytes(i, c)
+			}
+		}
+		// ... unless a trigger has certainly fired. Buffers are per broker and the partition of an unsent message is not
+		// observable, so the count and the bytes are judged by pigeonhole over the brokers; key+value bytes are a lower bound
+		// of what the producer counts per message.
+		if nb := c.Brokers; len(unsent) > 0 && nb > 0 {
+			cc := &c.Conf
+			if (cc.FlushMessages > 0 && len(unsent) >= nb*(cc.FlushMessages-1)+1) || (cc.FlushBytes > 0 && kv >= nb*cc.FlushBytes) {
+				run.unflushed = unsent
 			}
 		}
 		if run.abandoned {
